@@ -502,3 +502,38 @@ def c15(chk):
                         canary=corrupt_race_trace, silent=True, timeout=3000)
     chk.assumptions += ["Ed25519/SHA-256 primitives trusted; Stronghold store not exercised (build too heavy for this sandbox run)",
                         "real-thread races sample schedules; exhaustive interleaving holds for the TLA+ design model only"]
+
+
+# ------------------------------------------------------------------------------------------------
+# C20 — resolver
+# ------------------------------------------------------------------------------------------------
+
+def flip_resolver_case(rows, k=3):
+    out = []
+    for r in rows:
+        if r["result"] == "ok" and len(r["order"]) >= 2:
+            r = json.loads(json.dumps(r))
+            r["keys"] = r["keys"][:-1]          # claim one distinct DID is missing from the result map
+            out.append(r)
+            if len(out) >= k:
+                break
+    if not out:
+        raise ToolError("canary: no successful multi-DID behaviour")
+    return out
+
+
+@plan("C20")
+def c20(chk):
+    chk.rule = ("TLC explores every behaviour of resolve_multiple: every handler table over 3 methods x every input list up to "
+                "MaxInput (quick 3, thorough 4) over 4 DIDs (duplicates, unsupported methods) x every set of failing DIDs x "
+                "EVERY completion order of the pending handler futures, checking dispatch-by-method, no call for unsupported "
+                "methods, one entry per distinct DID and order-independence of the result. Every behaviour is replayed on both "
+                "resolver flavours (Send+Sync and single-threaded) with gated handler futures polled by hand, opening the gates "
+                "in the order TLC chose; the handler call log, the result map and single resolution of each DID are compared; "
+                "did:jwk expansion is checked for public and private JWKs.")
+    r = chk.mc("MCResolver", "Resolver_%s.cfg" % chk.tier, workers=q(chk, 4, 12), timeout=1800, heap=q(chk, "3g", "12g"))
+    chk.replay(r["cases_file"], timeout=3000)
+    chk.canary_cases(r["cases_file"], flip_resolver_case)
+    chk.assumptions += ["futures::FuturesUnordered is driven by a hand-written poll loop (no runtime): completion order is fully "
+                        "controlled by the harness; thread-level races between executor threads are not explored",
+                        "the resolver's iota handler (network client) is out of reach offline"]
